@@ -19,6 +19,10 @@ class ToGFA1:
     segments = self.captured_segments
     for i, oline in enumerate(self.captured_edges):
       edge = oline.line
+      if not edge.is_dovetail():
+        # GFA1 paths go over links only: a group which goes through a
+        # containment or an internal alignment has no GFA1 counterpart
+        return []
       overlap = edge.overlap
       # the step of the path shall be the link to which the edge is converted,
       # or its complement
